@@ -438,6 +438,7 @@ type AtCall struct {
 	Hints    []Hint
 	GhostPre []GhostUpd
 	GhostPost []GhostUpd
+	Modifies  []Expr
 }
 
 type GhostUpd struct {
@@ -455,6 +456,7 @@ type FuncSpec struct {
 	Modifies []Expr
 	Panics   *Clause
 	NoPanic  bool
+	MayPanic bool
 	Hints    []Hint
 	Loops    map[int]*LoopSpec
 	AtCalls  []*AtCall
@@ -626,7 +628,7 @@ func parseExprList(s string) ([]Expr, error) {
 }
 
 var clauseKeywords = map[string]bool{"requires": true, "ensures": true, "modifies": true, "panics": true, "pure": true,
-	"decreases": true, "hint": true, "loop": true, "at": true, "params": true, "nopanic": true, "allocates": true, "ghost": true}
+	"decreases": true, "hint": true, "loop": true, "at": true, "params": true, "nopanic": true, "maypanic": true, "allocates": true, "ghost": true}
 var itemKeywords = map[string]bool{"const": true, "spec": true, "lemma": true, "inv": true, "ghost": true, "iface": true,
 	"funcfield": true, "func": true, "trusted": true, "package": true, "opaque": true}
 
@@ -843,6 +845,8 @@ func ParseContractFile(path string, pkgPath string) (*ContractFile, error) {
 			cur.Panics = &c
 		case "pure":
 			cur.Pure = true
+		case "maypanic":
+			cur.MayPanic = true
 		case "nopanic":
 			cur.NoPanic = true
 		case "allocates":
@@ -948,6 +952,13 @@ func ParseContractFile(path string, pkgPath string) (*ContractFile, error) {
 					return nil, fail(l, err)
 				}
 				ac.Hints = append(ac.Hints, hs...)
+			case "modifies":
+				// caller-declared effect of a blocking call: state other goroutines may change meanwhile
+				es, err := parseExprList(f[3])
+				if err != nil {
+					return nil, fail(l, err)
+				}
+				ac.Modifies = append(ac.Modifies, es...)
 			case "ghost":
 				body := f[3]
 				when := "after"
